@@ -91,3 +91,108 @@ func VerifC06InflatedResponse() {
 	vapi.Check(got.ReadFrom(codec.NewReader(mut)) != nil, "a byte vector announcing more than remains is rejected")
 	vapi.Reach("c06-inflated-response")
 }
+
+// a well-formed field of wire type ty (never StructEnd) at the given tag with symbolic content
+func c06AnyField(ty byte, tag int) []byte {
+	out := wHead(ty, tag)
+	switch ty {
+	case tyByte:
+		out = append(out, vapi.Bytes("sp", 1)...)
+	case tyShort:
+		out = append(out, vapi.Bytes("sp", 2)...)
+	case tyInt, tyFloat:
+		out = append(out, vapi.Bytes("sp", 4)...)
+	case tyLong, tyDouble:
+		out = append(out, vapi.Bytes("sp", 8)...)
+	case tyStr1:
+		n := vapi.Len("sslen", 2)
+		out = append(out, byte(n))
+		out = append(out, vapi.Bytes("ss", n)...)
+	case tyStr4:
+		n := vapi.Len("sslen", 2)
+		out = append(out, 0, 0, 0, byte(n))
+		out = append(out, vapi.Bytes("ss", n)...)
+	case tyMap:
+		if vapi.Bool("sentry") { // one entry: string key at tag 0, string value at tag 1
+			out = append(out, 0x00, 1, 0x06, 1, vapi.Byte("sk"), 0x16, 1, vapi.Byte("sv"))
+		} else {
+			out = append(out, 0x0C)
+		}
+	case tyList:
+		if vapi.Bool("selem") { // one BYTE element
+			out = append(out, 0x00, 1, 0x00, vapi.Byte("se"))
+		} else {
+			out = append(out, 0x0C)
+		}
+	case tyBegin:
+		if vapi.Bool("smember") {
+			out = append(out, 0x00, vapi.Byte("sm"))
+		}
+		out = append(out, 0x0B)
+	case tyZero:
+	case tySimple:
+		n := vapi.Len("sblen", 2)
+		out = append(out, 0x00)
+		if n == 0 {
+			out = append(out, 0x0C)
+		} else {
+			out = append(out, 0x00, byte(n))
+		}
+		out = append(out, vapi.Bytes("sb", n)...)
+	}
+	return out
+}
+
+// VerifC06SubstitutedResponse: a valid ResponsePacket encoding in which ONE field (any of the
+// nine, required or optional, scalar or container) is replaced by a well-formed field of a wire
+// type that is not admissible for its schema type: decoding must fail, never reinterpret.
+func VerifC06SubstitutedResponse() {
+	fields := [][]byte{
+		append(wHead(tyShort, 1), vapi.Bytes("f1", 2)...),
+		append(wHead(tyByte, 2), vapi.Bytes("f2", 1)...),
+		append(wHead(tyInt, 3), vapi.Bytes("f3", 4)...),
+		append(wHead(tyByte, 4), vapi.Bytes("f4", 1)...),
+		wHead(tyZero, 5),
+		append(wHead(tySimple, 6), 0x00, 0x00, 1, vapi.Byte("f6")),
+		append(wHead(tyMap, 7), 0x00, 1, 0x06, 1, 'k', 0x16, 1, vapi.Byte("f7")),
+		append(wHead(tyStr1, 8), 1, vapi.Byte("f8")),
+		append(wHead(tyMap, 9), 0x00, 1, 0x06, 1, 'c', 0x16, 1, vapi.Byte("f9")),
+	}
+	// the unmodified encoding decodes (vacuity guard for the construction above)
+	var whole []byte
+	for _, f := range fields {
+		whole = append(whole, f...)
+	}
+	var ok ResponsePacket
+	vapi.Check(ok.ReadFrom(codec.NewReader(whole)) == nil, "the reference encoding decodes")
+	// admissible wire types per member (tags 1..9)
+	admissible := [][]byte{
+		{tyByte, tyShort, tyZero},
+		{tyByte, tyZero},
+		{tyByte, tyShort, tyInt, tyZero},
+		{tyByte, tyShort, tyInt, tyZero},
+		{tyByte, tyShort, tyInt, tyZero},
+		{tyList, tySimple},
+		{tyMap},
+		{tyStr1, tyStr4},
+		{tyMap},
+	}
+	k := vapi.Choice("member", 9)
+	ty := vapi.Byte("sty")
+	vapi.Assume(vapi.And(ty <= 13, ty != tyEnd))
+	ty = byte(vapi.Concrete(uint64(ty)))
+	for _, a := range admissible[k] {
+		vapi.Assume(ty != a)
+	}
+	var mut []byte
+	for i, f := range fields {
+		if i == k {
+			mut = append(mut, c06AnyField(ty, k+1)...)
+		} else {
+			mut = append(mut, f...)
+		}
+	}
+	var got ResponsePacket
+	vapi.Check(got.ReadFrom(codec.NewReader(mut)) != nil, "a member replaced by a field of an inadmissible wire type is rejected")
+	vapi.Reach("c06-substituted-response")
+}
